@@ -185,7 +185,7 @@ Proof.
 Qed.
 
 Lemma add_gen_Inv : forall gid b g s, Jcore (Some (gid, b)) s -> Stab s -> g_id g = gid ->
-  (adv g = true -> consumers s = [] /\ (b = true \/ stopping s = false)) ->
+  (adv g = true -> consumers s = [] /\ (b = true \/ (stopping s = false /\ stop_requested s = false))) ->
   (stopping s = false -> rejoin_needed s = true) -> Inv (add_gen g s).
 Proof.
   intros gid b g s H St Hg Ha Hn. constructor.
@@ -262,7 +262,7 @@ Proof.
   - destruct k; try apply (coord_retry_end_Inv _ _ _ J1 St); apply (gen_fail_Inv _ _ _ J1 St NP').
 Qed.
 
-Lemma send_join_Inv : forall gid b s, Jcore (Some (gid, b)) s -> Stab s -> consumers s = [] -> (b = true \/ stopping s = false) ->
+Lemma send_join_Inv : forall gid b s, Jcore (Some (gid, b)) s -> Stab s -> consumers s = [] -> (b = true \/ (stopping s = false /\ stop_requested s = false)) ->
   (stopping s = false -> rejoin_needed s = true) -> Inv (fst (send_join gid s)).
 Proof.
   intros gid b s H St Hc Hb Hn.
@@ -288,10 +288,10 @@ Proof.
   - ds s. exact Hn.
 Qed.
 
-Lemma prepare_and_join_Inv : forall gid s, Jcore (Some (gid, false)) s -> Stab s -> stopping s = false -> rejoin_needed s = true ->
+Lemma prepare_and_join_Inv : forall gid s, Jcore (Some (gid, false)) s -> Stab s -> stopping s = false -> stop_requested s = false -> rejoin_needed s = true ->
   Inv (fst (prepare_and_join gid s)).
 Proof.
-  intros gid s H St Hs Hn. unfold prepare_and_join. destruct (is_group s) eqn:G.
+  intros gid s H St Hs Hr Hn. unfold prepare_and_join. destruct (is_group s) eqn:G.
   - destruct (consumers s) as [|c cs'] eqn:C.
     + apply (send_join_Inv gid false); auto.
     + unfold begin_shutdown. cbn [fst].
@@ -325,6 +325,7 @@ Proof.
     + eapply Jcore_frame; [|exact J1]. ds s. frame.
     + ds s. stabx St.
     + ds s. exact SP1.
+    + ds s. exact SP2.
     + assert (X : stopping s = false) by (ds s; exact SP1). destruct (N1 X). ds s. auto.
 Qed.
 
@@ -681,8 +682,9 @@ Proof.
     assert (C1 : consumers (set_stops rest s) = []) by (ds s; exact C0).
     assert (CS : Inv (fst (coord_stop st (set_stops rest s)))).
     { pose proof (coord_stop_J None st _ J0 C1) as (X & Y & _). apply stopping_Inv; [exact X|]. apply Y. ds s. exact NP. }
+    assert (AG : (cnt adv (gens s) + radv None = 0)%nat). { destruct (j14 _ _ A) as [X|X]; [lia|exact X]. }
     assert (RE : forall l', Inv (set_stops (mkStop (st_idx st) (st_err st) (S1 l') :: rest) s)).
-    { intros l'. constructor; [|ds s; exact B|ds s; exact C]. ds s. prj. subst. jgo. }
+    { intros l'. constructor; [|ds s; exact B|ds s; exact C]. ds s. prj. subst. jgo. all: cbn [has_s1 st_ph b2n radv] in *; fin. }
     destruct ok.
     + destruct (sh_all_done (sh_mark_done cid (stop_list st))); [exact CS|apply RE].
     + rewrite emits_fst. exact CS.
